@@ -123,11 +123,12 @@ def run_probe(out: Path, tracefile: str) -> None:
             titled = has_title(src)
             skip = (not is_pkg) and str(args[0]).startswith("__")
             if not skip:
-                events.append({"ev": "begin", "path": str(path), "pkg": is_pkg, "titled": titled, "shape": classify(src)})
+                events.append({"ev": "begin", "path": str(path), "pkg": is_pkg, "titled": titled, "shape": classify(src),
+                               "flag": c19_probe.flag()})
             res = fn(directory, *args)
             if not skip:
                 events.append({"ev": "end", "path": str(path), "titled": titled, "page": res is not None,
-                               "stem": res if res is not None else ""})
+                               "stem": res if res is not None else "", "flag": c19_probe.flag()})
             return res
         return wrapper
 
